@@ -176,8 +176,49 @@ def hbuff_prologue():
                 has = "dim pid: integer" in text and "RUN _ecb_init_hbuff(pid)" in text
                 want = prefix and name != "none"
                 res.append(ob("hbuff-prologue/%s,prefix=%d" % (name, prefix), has == want, want, has))
+            # no other option has a say: every setting of the remaining options gives the same answer
+            import itertools
+            bad = []
+            for suffix, filt, init, deps, w32 in itertools.product((False, True), repeat=5):
+                opaque.reset()
+                text = convert_ast(fac, add_standard_prefix=True, add_suffix=suffix, filter_unused_linenum=filt, initialize_vars=init, output_dependencies=deps, default_width32=w32,
+                                   procname="p")
+                has = text.count("dim pid: integer") == 1 and text.count("RUN _ecb_init_hbuff(pid)") == 1
+                none = "dim pid: integer" not in text and "_ecb_init_hbuff(pid)" not in text.split("procedure p")[-1]
+                if (name != "none" and not has) or (name == "none" and not none):
+                    bad.append(dict(add_suffix=suffix, filter=filt, init=init, deps=deps, width32=w32))
+            res.append(ob("hbuff-prologue/%s, independent of the other options" % name, not bad, "same for all 32 settings", bad[:3] or "same"))
         return res
     return guarded("hbuff-prologue", run)
+
+
+def poke_addresses():
+    """POKE: only the two documented clock-speed addresses (65496 slow, 65497 fast; also written in hex) are translated to the
+    play.octo switch; every other address - literal or not - reaches POKE with address and value"""
+    from coco.b09.compiler import convert
+
+    def run():
+        res = []
+        bad = []
+        for addr in [0, 1, 1024, 32767, 32768, 65280, 65494, 65495, 65496, 65497, 65498, 65499, 65535]:
+            for spelling in ("%d" % addr, "&H%X" % addr):
+                for val, vtext in (("1", "1.0"), ("A", "A")):
+                    src = "POKE %s,%s" % (spelling, val)
+                    try:
+                        text = convert("10 %s\n" % src, add_standard_prefix=False).strip()
+                    except Exception as e:  # noqa
+                        text = "%s: %s" % (type(e).__name__, str(e)[:80])
+                    if addr in (65496, 65497):
+                        want = "10 play.octo := %d" % (addr - 65496)
+                        ok = text == want
+                    else:
+                        ok = re.fullmatch(r"10 POKE (\S+), %s" % re.escape(vtext), text) is not None and "play.octo" not in text
+                        want = "10 POKE <address %d>, %s" % (addr, vtext)
+                    if not ok:
+                        bad.append(dict(source=src, expected=want, got=text))
+        res.append(ob("poke/only 65496 and 65497 switch the clock speed", not bad, "play.octo := 0|1 for the two addresses, POKE otherwise", bad[:4] or "13 addresses x 2 spellings x 2 values"))
+        return res
+    return guarded("poke", run)
 
 
 def device_functions_per_occurrence():
@@ -238,4 +279,4 @@ def obligations():
     # defaults such as float(display.hfore) are read from a record the runtime fills by reference: the value that reaches the
     # library is the documented default only if program and library lay the record out identically (shared with C14)
     from tx.p_c14 import record_types
-    return statement_rows() + hbuff_prologue() + record_types() + device_functions_per_occurrence() + parser_builds_a_tree()
+    return statement_rows() + hbuff_prologue() + record_types() + device_functions_per_occurrence() + parser_builds_a_tree() + poke_addresses()
